@@ -771,7 +771,10 @@ def run_prelude(q, r, case, meas=None, cap=None, wlist=None, by=None):
                 plt.close("all")
             r.mc.use_mean_and_std()
         elif k == "print":
-            _ = {"str": str, "repr": repr, "format": "{}".format}[op[1]](r)
+            try:
+                _ = {"str": str, "repr": repr, "format": "{}".format}[op[1]](r)
+            except Exception:  # noqa: BLE001
+                pass      # a pair that is not a number cannot be formatted (C09's subject)
             seen_empty()
         elif k == "pin-global":
             _, newglob, read_between, recalc = op
